@@ -482,6 +482,38 @@ pub fn redirect_stdout() {
     }
 }
 
+/// While alive, fd 2 points at /dev/null (the engine reports refused commands on stderr).
+pub struct StderrSilence {
+    saved: i32,
+}
+
+impl StderrSilence {
+    pub fn new() -> StderrSilence {
+        unsafe {
+            let saved = libc::dup(2);
+            let null = libc::open(b"/dev/null\0".as_ptr() as *const libc::c_char, libc::O_WRONLY);
+            if saved >= 0 && null >= 0 {
+                libc::dup2(null, 2);
+            }
+            if null >= 0 {
+                libc::close(null);
+            }
+            StderrSilence { saved }
+        }
+    }
+}
+
+impl Drop for StderrSilence {
+    fn drop(&mut self) {
+        unsafe {
+            if self.saved >= 0 {
+                libc::dup2(self.saved, 2);
+                libc::close(self.saved);
+            }
+        }
+    }
+}
+
 pub fn drain_stdout() -> String {
     let mut out = Vec::new();
     if let Some(fd) = *CAPTURE_RD.lock().unwrap() {
